@@ -157,7 +157,7 @@ class LocBuilder:
                 entries = []
                 lo = 0x10
                 for _ in range(nr):
-                    hi = lo + rnd.choice([1, 4, 0x100])
+                    hi = lo + rnd.choice([1, 4, 0x100, 0, 0])      # (0: an entry with an empty range, begin == end; it is stored, so it is an element)
                     expr, ops = self.expression()
                     entries.append((lo, hi, expr, ops))
                     lo = hi + rnd.choice([0, 8])
